@@ -138,7 +138,14 @@ def run(rep, work, tier, seed, only=None):
                 rec, code, q, tog, key = item
                 n = code['n']
                 exp = [i for i, (r_, z) in enumerate(zip(code['H'], code['z_indices'])) if (not z) and q in r_['x']]
-                rep.violation(dict(key, clause='geometry'),
+                # does the edge have an anticommuting face across a periodic boundary (coordinates more than one unit apart)?
+                qloc = code['qubits'][q]
+                allc = code['qubits'] + code['stab_coords']
+                lo = [min(c_[a] for c_ in allc) for a in range(len(qloc))]
+                hi = [max(c_[a] for c_ in allc) for a in range(len(qloc))]
+                seam = any(max(abs(a - b) for a, b in zip(qloc, code['stab_coords'][i])) > 1 for i in set(exp) | set(tog)) \
+                    or any(qloc[a] - lo[a] <= 1 or hi[a] - qloc[a] <= 1 for a in range(len(qloc)))
+                rep.violation(dict(key, clause='geometry', across_periodic_boundary=seam),
                               '%s: flipping edge %d at %s toggles faces %s; the face stabilizers anticommuting with Z on that edge are %s'
                               % (rec['tag'], q, code['qubits'][q], tog, exp),
                               {'lattice': rec['tag'], 'edge': q, 'edge_location': code['qubits'][q], 'toggled': tog, 'anticommuting_faces': exp})
